@@ -453,7 +453,13 @@ def _obj_inputs(case):
     from synkit.IO.chem_converter import rsmi_to_its
     # the template as the caller hands it over: NOT inverted (the reactor inverts)
     kw = K.MODES["S"] if case["obj"] == "ownS" else K.MODES[o["mode"]]
-    return o["host"], rsmi_to_its(case["rsmi"], core=bool(case["core"])), bool(case["invert"]), kw, None
+    tplg = rsmi_to_its(case["rsmi"], core=bool(case["core"]))
+    rule = None
+    if case["obj"] == "ownR":          # the caller prepares a SynRule object in the hydrogen mode of the reaction and hands the OBJECT over
+        from synkit.Rule import SynRule
+        import copy
+        rule = SynRule(copy.deepcopy(tplg), implicit_h=(o["mode"] != "I"))
+    return o["host"], tplg, bool(case["invert"]), kw, rule
 
 
 def _impl_object(case):
@@ -498,7 +504,7 @@ def _coq_object(case):
     if case["obj"] == "crash":
         return ("run_object (RO false true false (SK.model.C06_Model.SMember 0%%N) None false) (Some false) %s %s %s %s %s"
                 % (pre["host"], pre["tpl"], raw, tbl, sc))
-    fn = "run_object_S" if case["obj"] == "ownS" else "run_object_own"
+    fn = {"ownS": "run_object_S", "ownR": "run_object_R"}.get(case["obj"], "run_object_own")
     return "%s %s %s %s %s %s %s %s" % (fn, K.cb(case["core"]), K.cb(case["invert"]), _c_hostj(pre["G"]), _c_hostj(pre["H"]), raw, tbl, sc)
 
 
@@ -1040,6 +1046,14 @@ def _obj_cases(tier, rng, corpus_pick=()):
         for core, inv in ((True, False), (False, True)):
             c = _mk_obj(hname, hand[hname], core, inv, rng.choice(scripts))
             c.update(obj="ownS", kind="object-modeS", name=c["name"] + ":modeS")
+            out.append(c)
+    # the template handed over as a SynRule OBJECT, forwards (used as it is) and backwards (its prepared rc is inverted, not prepared again)
+    for hname in HIST_RX + ["quaternisation", "deprotonation-explicit", "amide-charge"]:
+        if hname not in hand:
+            continue
+        for core, inv in ((True, True), (False, False), (rng.random() < 0.5, True)):
+            c = _mk_obj(hname, hand[hname], core, inv, rng.choice(scripts))
+            c.update(obj="ownR", kind="object-synrule", name=c["name"] + ":synrule")
             out.append(c)
     for sc in scripts:
         out.append(dict(kind="object-crash", name="hand:crash-rule:obj:%s" % sc, cid="hand:crash-rule", obj="crash", script=sc,
